@@ -223,6 +223,31 @@ def rule_stop(m, rep):
     else:
         rep.good('R1', 'Worker::stop/marker-or-flag', b.where(first),
                  'if the marker cannot be queued a sticky flag `%s` records the stop request' % flagname)
+    if flagname is not None:
+        # the flag and the queue form a store-then-look / take-then-look pair (stop: set the flag, then find the queue still full;
+        # worker: take an entry, then read the flag): only sequentially consistent accesses exclude that both sides miss each other
+        weak = []
+        for bi, fn_ in flags:
+            o_ = norm(T.call_term(bi))[2][2]
+            if not (o_[0] == 'adt' and o_[2] == 'SeqCst'):
+                weak.append((bi, fmt(o_)))
+        rep.ob('R1', 'stop/flag-store-is-seqcst', not weak, b.where(weak[0][0]) if weak else b.where(flags[0][0]),
+               'the sticky flag is set with Ordering::SeqCst' if not weak else
+               'the sticky flag is set with %s: the worker may take the last entry and still read the flag as unset, then block forever' % weak[0][1])
+        # ... and nobody has asked for a stop before the worker starts
+        from .queuing import _nested_get
+        news = role_names(cad).constructors(m.worker)
+        init_ok = False
+        for nb_ in news:
+            rts = ret_terms(Terms(inl(cad, nb_)), [0])
+            if len(rts) == 1 and list(rts)[0][0] == 'adt':
+                v_ = _nested_get(list(rts)[0], flagname)
+                if v_ is not None:
+                    v_ = norm(v_)
+                    init_ok = term_callee_is(v_, 'core::sync::atomic::Atomic::new') and v_[2][0] == ('const', 'bool', False, None)
+        rep.ob('R1', 'stop/flag-starts-false', init_ok, news[0].where() if news else b.where(),
+               'a new worker starts with the stop flag unset' if init_ok else
+               'a new worker does not start with `%s` = false: it leaves its loop the first time it finds the queue empty' % flagname)
     return flagname
 
 
@@ -283,6 +308,10 @@ def rule_run_exit(m, rep, flagname, only=None):
     if not loads:
         rep.bad('R1b', 'run/reads-stop-flag', body.where(lm.d), 'run() never reads the stop flag `%s` inside its loop' % flagname)
         return
+    weakl = [(l, fmt(ct_[2][1])) for l, ct_ in loads if not (ct_[2][1][0] == 'adt' and ct_[2][1][2] == 'SeqCst')]
+    rep.ob('R1b', 'run/flag-load-is-seqcst', not weakl, body.where(weakl[0][0]) if weakl else body.where(loads[0][0]),
+           'the worker reads the stop flag with Ordering::SeqCst' if not weakl else
+           'the worker reads the stop flag with %s: after taking the last entry it may still see the flag unset and block forever' % weakl[0][1])
     if lm.dkind == 'blocking':
         okd = any(l in dom.get(lm.d, ()) for l, _ in loads)
         if not okd:
@@ -666,6 +695,8 @@ def rule_sentinel(m, rep, count=True):
     for s in sp:
         ct = norm(T.call_term(s))
         a = ct[2][0]
+        while term_callee_is(a, '<alloc::sync::Arc as core::clone::Clone>::clone') and term_callee_is(peel(a[2][0]), '<alloc::sync::Arc as core::clone::Clone>::clone'):
+            a = peel(a[2][0])       # a clone of a clone is a handle to the same worker
         oka2 = term_callee_is(a, '<alloc::sync::Arc as core::clone::Clone>::clone') and peel_root(a[2][0]) == ('param', 1)
         if not oka2 and a[0] != 'call':
             # the spawn function may take `&Arc<Worker>` and clone it itself: then the sentinel's own Arc is passed by reference
